@@ -61,6 +61,8 @@ class BodyPath:
         self.dict_adds = {}    # id(dict) -> [(k, v)]
         self.value = None      # comprehension element value
         self.raised = None
+        self.returned = None   # ReturnSig of an iteration that leaves the function (only for iterations without effects)
+        self.path_pc = []
         self.elem_writes = []
 
     def __repr__(self):
@@ -159,8 +161,10 @@ def probe_body(ex, run_body, env, it, havoc_ok=(), body=None):
                 pass
             except BreakSig:
                 raise Unsupported('break inside a summarised loop')
-            except ReturnSig:
-                raise Unsupported('return inside a summarised loop')
+            except ReturnSig as e:
+                # an iteration that leaves the function: admitted when that iteration has no effect on outer state
+                bp.returned = e
+                bp.path_pc = list(ex.pc[mark_pc:])
             except SymRaise as e:
                 bp.raised = e
             except Infeasible:
@@ -212,6 +216,8 @@ def probe_body(ex, run_body, env, it, havoc_ok=(), body=None):
                         and not isinstance(saved_vars[name], Poison) and not assigned_before_read(body, name):
                     raise LoopCarried(name, saved_vars[name])
             bp.local_names = [k for k in env.vars if k not in saved_vars]
+            if bp.returned is not None and (bp.appends or bp.dict_adds or bp.elem_writes):
+                raise Unsupported('return inside a summarised loop after the iteration changed outer state')
             paths.append(bp)
             # roll back
             while len(ex.undo) > mark_undo:
@@ -251,6 +257,20 @@ def _reachable_from(elem, obj, depth=0):
 
 def apply_summary(ex, it, paths, conts, env, node):
     seq = base_seq(it)
+    returning = [p for p in paths if p.returned is not None]
+    paths = [p for p in paths if p.returned is None]
+    if returning:
+        # some iteration takes a returning path (its facts hold for that generic element; the sequence is not empty),
+        # or every iteration takes a non-returning path and the loop runs to its end
+        k = ex.choose(len(returning) + 1, f'loop@{getattr(node, "lineno", "?")} returns', ['no'] + [repr(p.choices) for p in returning])
+        if k > 0:
+            p = returning[k - 1]
+            for c in p.path_pc:
+                ex.assume(c)
+            ex.assume(seq.len > 0)
+            if p.events:
+                ex.log.append(ForEach(seq, [(p.choices + ['<returns>'], p.events)]))
+            raise p.returned
     normal = [p for p in paths if p.raised is None]
     raising = [p for p in paths if p.raised is not None]
     if raising:
